@@ -414,6 +414,37 @@ class FindSystem(System):
                    transitions=nq, validated=nq, stats={"queries": nq})
 
 
+TAGSOUP = ["<a>", "<b>", "<i>", "</a>", "</b>", "</i>", "x", "<br>", "<a/>", "</p>", "<p>"]
+
+
+class TagSoupSystem(System):
+    """mis-nested / stray open and close tags (token level, longer than the character soups can reach)"""
+
+    name = "soup-tags"
+
+    def __init__(self, tier):
+        super().__init__(tier)
+        self.n = 5 if tier == "quick" else 6
+        self.description = f"every sequence of <= {self.n} tokens from {TAGSOUP}: totality, tree consistency, copy/strip isolation"
+
+    def bounds(self):
+        return {"tokens": self.n, "alphabet_size": len(TAGSOUP)}
+
+    def alphabet(self):
+        return TAGSOUP
+
+    def rule(self):
+        return "one case = one token sequence; non-trivial = contains a close tag"
+
+    def cases(self):
+        for n in range(1, self.n + 1):
+            for t in itertools.product(TAGSOUP, repeat=n):
+                yield "".join(t)
+
+    def run(self, text):
+        return check_soup(text)
+
+
 PROBES = [t for n in range(1, 3) for t, _ in forests(n, 1)]
 
 
@@ -474,6 +505,7 @@ def systems(tier):
     out.append(ForestSystem(tier))
     out.append(FindSystem(tier))
     out.append(HistorySystem(tier))
+    out.append(TagSoupSystem(tier))
     return out
 
 
